@@ -43,6 +43,17 @@ pub fn in_unwinding<T>(f: impl FnOnce() -> T) -> Result<T, String> {
     slot.expect("the destructor ran")
 }
 
+/// An accessor of an internal function whose shape the source no longer has panics with this message
+/// (shadow/build.rs); the generators then print a note once and skip the lines that need it.
+pub const ACCESSOR_ABSENT: &str = "verif-accessor-absent";
+pub fn note_absent(out: &mut impl std::io::Write, which: &str) {
+    use std::sync::atomic::{AtomicBool, Ordering};
+    static SAID: AtomicBool = AtomicBool::new(false);
+    if !SAID.swap(true, Ordering::SeqCst) {
+        writeln!(out, "# accessor absent: {} (no function of the expected shape in the source as written)", which).unwrap();
+    }
+}
+
 pub fn silence_panics() {
     panic::set_hook(Box::new(|_| {}));
 }
